@@ -76,6 +76,9 @@ func runPoolWorlds(c *Ctx, focus string, replay []string) (lines, outs []string)
 		}
 	} else {
 		n := c.Scale(120, 900)
+		if c.Extra["pool_cases"] != nil {
+			n = c.Extra["pool_cases"].(int)
+		}
 		for i := 0; i < n; i++ {
 			seeds = append(seeds, c.R.U64())
 		}
@@ -127,4 +130,18 @@ func runPoolWorlds(c *Ctx, focus string, replay []string) (lines, outs []string)
 	}
 	wg.Wait()
 	return
+}
+
+// poolSlice runs a smaller batch of pool-world cases inside another family's check (C04: a failed ADD hands back what it took
+// also where requests wait for the cloud; C09: the release step GC and DEL share).  The pool world's monitors of `from` count
+// under the keys in remap.
+func poolSlice(c *Ctx, from string, n int, remap map[string]string) {
+	sub := &Ctx{Tier: c.Tier, Seed: c.Seed, R: c.R, Dist: c.Dist, Extra: map[string]any{"pool_cases": n}, Replay: c.Replay}
+	runPoolWorlds(sub, from, nil)
+	c.Cases = append(c.Cases, sub.Cases...)
+	for _, v := range sub.Viol {
+		if k, ok := remap[v.Key]; ok {
+			c.Violate(k, v.What, v.Lines...)
+		}
+	}
 }
